@@ -658,7 +658,12 @@ func (x *extractor) stmt(s ast.Stmt, en *env) []S {
 	case *ast.RangeStmt:
 		pre := x.expr(v.X, en)
 		return append(pre, x.loop(v, x.block(v.Body.List, en.clone()), en)...)
-	case *ast.SwitchStmt, *ast.TypeSwitchStmt:
+	case *ast.SwitchStmt:
+		if !x.mentions(v, en) && !hasReturn(v) {
+			return nil
+		}
+		return x.switchStmt(v, en)
+	case *ast.TypeSwitchStmt:
 		if x.mentions(v, en) || hasReturn(v) {
 			fatalf(v.Pos(), "unhandled statement form %T with a tracked variable, extracted call or return inside", s)
 		}
@@ -666,6 +671,65 @@ func (x *extractor) stmt(s ast.Stmt, en *env) []S {
 	}
 	fatalf(s.Pos(), "unhandled statement form %T: %s", s, firstLine(src(s)))
 	return nil
+}
+
+// switchStmt renders an expression switch as a chain of conditionals, one fresh atom per case clause
+// (`switch { case a: A; case b: B; default: D }` = if a {A} else if b {B} else {D}). `fallthrough` and
+// `break` are not handled (fail closed).
+func (x *extractor) switchStmt(v *ast.SwitchStmt, en *env) []S {
+	ast.Inspect(v.Body, func(n ast.Node) bool {
+		switch b := n.(type) {
+		case *ast.FuncLit, *ast.ForStmt, *ast.RangeStmt:
+			return false
+		case *ast.BranchStmt:
+			fatalf(b.Pos(), "%s inside a switch of an extracted function", b.Tok)
+		}
+		return true
+	})
+	inner := en.clone()
+	var out []S
+	out = append(out, x.stmt(v.Init, inner)...)
+	out = append(out, x.expr(v.Tag, inner)...)
+	type clause struct {
+		atom int
+		body S
+	}
+	var clauses []clause
+	var def S = sSkip{}
+	hasDefault := false
+	for _, st := range v.Body.List {
+		cc := st.(*ast.CaseClause)
+		for _, e := range cc.List {
+			if evs := x.expr(e, inner); len(evs) > 0 {
+				fatalf(e.Pos(), "event in a case expression")
+			}
+		}
+		body := x.block(cc.Body, inner.clone())
+		if cc.List == nil {
+			def, hasDefault = body, true
+			continue
+		}
+		clauses = append(clauses, clause{x.atom(cc, en, "case"), body})
+	}
+	_ = hasDefault
+	res := def
+	for i := len(clauses) - 1; i >= 0; i-- {
+		res = sIte{clauses[i].atom, clauses[i].body, res}
+	}
+	// provenance of variables assigned inside the clauses is dropped
+	ast.Inspect(v.Body, func(n ast.Node) bool {
+		if as, ok := n.(*ast.AssignStmt); ok {
+			for _, l := range as.Lhs {
+				if id, ok := l.(*ast.Ident); ok {
+					if _, had := en.prov[id.Name]; had {
+						en.prov[id.Name] = label{kind: "raw", str: id.Name + " (assigned in a switch)"}
+					}
+				}
+			}
+		}
+		return true
+	})
+	return append(out, res)
 }
 
 func firstLine(s string) string {
